@@ -1,4 +1,5 @@
 use c03::*;
+use proptest::strategy::Strategy;
 use vcore::Ctx;
 
 fn main() {
@@ -21,7 +22,7 @@ fn main() {
     });
     ctx.begin();
     let max_ops = ctx.n(80, 400) as usize;
-    ctx.prop("histories", "treap-history", ctx.n(30_000, 1_000_000), case(max_ops), run_case);
-    ctx.prop("short-histories", "treap-history", ctx.n(30_000, 300_000), case(12), run_case);
+    ctx.prop_split("histories", "treap-history", ctx.n(30_000, 1_000_000), ctx.parts(), case(max_ops).boxed(), run_case);
+    ctx.prop_split("short-histories", "treap-history", ctx.n(30_000, 300_000), ctx.parts(), case(12).boxed(), run_case);
     ctx.finish();
 }
